@@ -245,12 +245,20 @@ def evaluate(group_names, prop, tier, res, timeout_s=None, only_quick=None):
                     # the code reached a construct Kani cannot interpret: no verdict, never an alarm
                     res.undecide('kani: harness %s reached a construct Kani does not support: %s' % (h.name, unsupported[0][:300]))
                     continue
+                unwinding = [fc for fc in r['failed_checks'] if re.search(r'unwinding assertion', fc)]
                 for fc in r['failed_checks']:
+                    if fc in unwinding:
+                        continue   # a bound of the tool, not an obligation of the property (see below)
                     m = re.match(r'"?\[([A-Z0-9, ]+)\]', fc)
                     if m:
                         (mine if prop in [p.strip() for p in m.group(1).split(',')] else other).append(fc)
                     else:
                         mine.append(fc)
+                if not mine and unwinding:
+                    # the changed code iterates or recurses deeper than the harness's unwinding bound and no
+                    # obligation of this property failed within the bound: no verdict (never an alarm)
+                    res.undecide('kani: harness %s: unwinding bound exceeded (%s)' % (h.name, unwinding[0][:200]))
+                    continue
                 if not mine:
                     # only obligations labelled for other properties failed
                     res.add(name, h.group.name, 'kani/cbmc', 'discharged', time_ms=tms, bounded=h.bound)
